@@ -1,9 +1,9 @@
 package main
 
 import (
-	"math"
 	"errors"
 	"fmt"
+	"math"
 	"reflect"
 	"strconv"
 	"strings"
